@@ -152,6 +152,9 @@ def run_harness_inner(ctx, grp, h):
     feats = grp["variant"].get("features", [])
     if feats:
         cmd += ["--features", ",".join(feats)]
+    if h.get("cbmc_args"):
+        # per-harness CBMC options, ';' separated (e.g. cbmc_args=--max-field-sensitivity-array-size;160); must stay last
+        cmd += ["-Z", "unstable-options", "--cbmc-args"] + h["cbmc_args"].split(";")
     rc, secs, _ = kani.run_cmd(cmd, grp["dir"], logp, cap, mem)
     text = open(logp, errors="replace").read()
     shutil.rmtree(tdir, ignore_errors=True)
